@@ -40,7 +40,7 @@ def run(prop: str, tier: str) -> int:
         if tier == "thorough":
             from . import mutprobe, selftest
 
-            selftest.run_for(prop, mod, rep)
+            rep.run(selftest.run_for, prop, mod, rep)  # a failing self-test is "cannot decide"; it never erases a finding
             rep.run(mutprobe.probe, prop, mod, idx, rep)
         return rep.finish(explanation, idx)
     except AnalysisError as e:
